@@ -510,6 +510,12 @@ def do_replay(prop, path, log):
         mine = [v for v in rep["violations"] if v["prop"] == prop]
         for v in rep["violations"]:
             log(f"[replay] {v['prop']} {v['sig']}: {v['detail'][:400]}")
+        with open(os.path.join(ROOT, "known_findings.json")) as f:
+            known = json.load(f)["findings"]
+        fresh = [v for v in mine if not match_known(known, prop, v["sig"])]
+        for k in {match_known(known, prop, v["sig"])["what"] for v in mine if match_known(known, prop, v["sig"])}:
+            print(f"KNOWN-FINDING: property={prop} {k}")
+        mine = fresh
         if mine:
             print(f"VIOLATION property={prop} replay={path}")
             return 1
